@@ -483,6 +483,12 @@ def run(F, rep):
     # position + length after a match).  A change made consistently on both sides still round-trips in ragc but is not AGC.
     from rules import c09
     c09.pred_rules(F, rep, "C02-LZ")
+    # tuple packing of reference segments is part of the format: pack(x) must be the AGC v3 packing (a change made
+    # consistently in packer and unpacker still round-trips in ragc)
+    if getattr(F, "cfg", "dev") == "dev":
+        from rules import c12
+        if F.funcs.get(c12.TP + "bytes_to_tuples") and F.funcs.get(c12.TP + "tuples_to_bytes"):
+            c12.tp4_rule(F, rep, "C02-TUPLE", want=("fmt",))
     # collection varint thresholds
     cv = {k.rsplit("::", 1)[-1]: c.get("int") for k, c in F.consts.items() if k.startswith("ragc_common::collection::CollectionVarInt::")}
     rep.stat("collection_varint_consts", cv)
